@@ -45,4 +45,25 @@ def betterOriginAnd (cand fb : Kind) : Pick :=
   else if cand.genlike && !fb.genlike then .candidate
   else .fallback
 
+/-! The origin reset of `extract_iter`: when the item popped from the queue is a Python frame, the origin that came with it is
+kept only if that frame is the origin's OWN frame (`origin.cr_frame / gi_frame / ag_frame is current`); the frames a running
+coroutine or generator is calling get no origin. -/
+
+structure PyFrame where
+  id : Nat        -- identity of the frame object
+  code : Nat      -- identity of its code object
+  deriving DecidableEq, Repr
+
+/-- `ownFrame`: the frame the origin object owns (`none`: not generator-like, or finished). -/
+def keepOrigin (ownFrame : Option PyFrame) (cur : PyFrame) : Bool :=
+  match ownFrame with
+  | some f => f.id == cur.id
+  | none => false
+
+/-- The slip seen in a seeded change: compare code objects instead of frames. -/
+def keepOriginByCode (ownFrame : Option PyFrame) (cur : PyFrame) : Bool :=
+  match ownFrame with
+  | some f => f.code == cur.code
+  | none => false
+
 end SS.Origin
